@@ -94,7 +94,7 @@ class CellVariable:
         elif cell_value.shape == tuple(mesh_struct.dims+2):
             # Values for ghost cells already included,
             # simply fill
-            self._value = TrackedArray(cell_value)
+            self._value = TrackedArray(np.asarray(cell_value, dtype=float))
         else:
             raise ValueError(f"The cell size {cell_value.shape} is not valid "\
                              f"for a mesh of size {mesh_struct.dims}.")
